@@ -888,3 +888,115 @@ def list_value_predicate(check: Check, repo: Repo, rule: str = "LIST-VALUE-PREDI
         ok = bool(uses) and not narrow
         check.ob(rule, fn, f"{q}: list values of `{p}`", ok,
                  f"is_iterable({p})" if ok else (f"tests `{p}` against {sorted(narrow)}" if narrow else f"no is_iterable({p}) test") + " - the siblings use is_iterable")
+
+
+def int_range_table(check: Check, repo: Repo, rule: str = "INT-RANGE-TABLE") -> None:
+    check.rule(
+        rule,
+        "every test of the 32-bit range in the Int coercers of type/scalars.py (result coercion, value coercion, literal "
+        "coercion, value -> literal and their helpers) is folded over the boundary values MIN-1, MIN, MIN+1, -1, 0, 1, "
+        "MAX-1, MAX, MAX+1 of its variable: its truth vector is the in-range predicate [MIN, MAX] or its negation. The "
+        "range is not symmetric (-2**31 is in, 2**31 is out): `abs(num) > MAX` rejects the literal -2147483648 that the "
+        "value side accepts, so a default of exactly -2**31 is printed and then refused when the SDL is built again",
+    )
+    mod = repo.mod("type.scalars")
+    lo = module_const(repo, "type.scalars", "GRAPHQL_MIN_INT")
+    hi = module_const(repo, "type.scalars", "GRAPHQL_MAX_INT")
+    if not (isinstance(lo, int) and isinstance(hi, int)):
+        raise AnalysisError("GRAPHQL_MIN_INT / GRAPHQL_MAX_INT are not static")
+    points = [lo - 1, lo, lo + 1, -1, 0, 1, hi - 1, hi, hi + 1]
+    want = [lo <= p <= hi for p in points]
+    n = 0
+    for fn in mod.functions():
+        if parent(fn) is not mod.tree:
+            continue
+        for t in walk_body(fn):
+            if not (isinstance(t, (ast.If, ast.IfExp)) or (isinstance(t, ast.Return) and t.value is not None)):
+                continue
+            test = t.test if isinstance(t, (ast.If, ast.IfExp)) else t.value
+            if "GRAPHQL_MAX_INT" not in unparse(test):
+                continue
+            # the smallest conjunct / operand that carries the range test
+            parts = [test]
+            while True:
+                e = parts[0]
+                if isinstance(e, ast.BoolOp):
+                    sub = [v for v in e.values if "GRAPHQL_MAX_INT" in unparse(v) or "GRAPHQL_MIN_INT" in unparse(v)]
+                    if len(sub) == 1:
+                        parts = sub
+                        continue
+                elif isinstance(e, ast.UnaryOp) and isinstance(e.op, ast.Not):
+                    parts = [e.operand]
+                    continue
+                break
+            r = parts[0]
+            names = sorted({x.id for x in ast.walk(r) if isinstance(x, ast.Name)} - {"GRAPHQL_MIN_INT", "GRAPHQL_MAX_INT", "abs", "int", "float"})
+            if len(names) != 1:
+                continue
+            vec = []
+            try:
+                for p in points:
+                    vec.append(bool(Evaluator(repo, mod, {names[0]: p}).eval(r)))
+            except NotStatic as ex:
+                raise AnalysisError(f"{fn.name}: range test `{unparse(r)}` is not foldable: {ex}") from ex
+            n += 1
+            ok = vec == want or vec == [not w for w in want]
+            wrong: list[int] = []
+            if not ok:
+                # describe against the closer of the two admissible vectors
+                neg = [not w for w in want]
+                ref = want if sum(a == b for a, b in zip(vec, want)) >= sum(a == b for a, b in zip(vec, neg)) else neg
+                wrong = [p for p, v, w in zip(points, vec, ref) if v != w]
+            check.ob(rule, t, f"{fn.name}: `{unparse(r)[:60]}`", ok,
+                     "the interval [GRAPHQL_MIN_INT, GRAPHQL_MAX_INT]" if ok else f"decides {wrong} differently from the 32-bit range")
+    if n < 4:
+        raise AnalysisError(f"INT-RANGE-TABLE: only {n} range tests found")
+
+
+FLOAT_REPRESENTATIVES = [0.0, 1.0, -1.0, 1.5, -0.5, 100.0, 120.0, 1e16, 1e20, 1.5e20, 1e22, 1.25e100, 2.5e-10, 1e-07, 1.5e-05, 123456789.125, 1.7976931348623157e308, 5e-324]
+
+
+def float_text(check: Check, repo: Repo, rule: str = "FLOAT-TEXT") -> None:
+    import re as _re
+
+    check.rule(
+        rule,
+        "ast_from_value turns a finite float into the text of a Float literal with a few string operations on str(x): "
+        "those statements are folded for representative doubles covering every shape str() produces - integral ('1.0', "
+        "'120.0'), fractional, exponent with and without fraction ('1e+20', '1.5e+20', '2.5e-10', '1e-07'), the largest and "
+        "the smallest double. The resulting text is a GraphQL number (IntValue/FloatValue grammar) and reads back as the "
+        "same double. Stripping zeros from the *end of the text* instead of a '.0' suffix turns 1.5e+20 into 1.5e+2",
+    )
+    mod = repo.mod("utilities.ast_from_value")
+    fn = repo.func("utilities.ast_from_value", "ast_from_value")
+    arm = next((i for i in walk_body(fn) if isinstance(i, ast.If) and "float" in unparse(i.test) and any(
+        isinstance(c, ast.Call) and call_name(c) == "FloatValueNode" for s in i.body for c in ast.walk(s))), None)
+    if arm is None:
+        raise AnalysisError("ast_from_value: float arm not found")
+    subject = next((unparse(c.args[0]) for c in ast.walk(arm.test) if isinstance(c, ast.Call) and call_name(c) == "isinstance" and "float" in unparse(c.args[1])), None)
+    if subject is None:
+        raise AnalysisError("ast_from_value: isinstance(<x>, float) not found")
+    grammar = _re.compile(r"-?(0|[1-9][0-9]*)(\.[0-9]+)?([eE][+-]?[0-9]+)?")
+    bad = []
+    for x in FLOAT_REPRESENTATIVES:
+        ev = Evaluator(repo, mod, {subject: x, "FloatValueNode": lambda value: ("Float", value), "IntValueNode": lambda value: ("Int", value)})
+        # statements of the arm, with AugAssign-free straight-line / if code
+        try:
+            r = ev._exec_block(_desugar_ifs(arm.body))
+        except NotStatic as ex:
+            raise AnalysisError(f"ast_from_value: float arm is no longer foldable: {ex}") from ex
+        if not (isinstance(r, tuple) and len(r) == 2 and isinstance(r[1], str)):
+            bad.append(f"{x!r}: no literal produced")
+            continue
+        text = r[1]
+        if not grammar.fullmatch(text):
+            bad.append(f"{x!r} -> {text!r} is not a GraphQL number")
+        elif float(text) != x:
+            bad.append(f"{x!r} -> {text!r}, which reads back as {float(text)!r}")
+    check.ob(rule, arm, f"ast_from_value: float text for {len(FLOAT_REPRESENTATIVES)} representative doubles", not bad,
+             "every text is a GraphQL number and reads back as the same double" if not bad else "; ".join(bad[:3]))
+
+
+def _desugar_ifs(stmts: list[ast.stmt]) -> list[ast.stmt]:
+    """`if c: <assignments>` without else, followed by more statements, in the shape the block evaluator executes."""
+    return stmts
